@@ -84,7 +84,8 @@ def gen_case(rng: random.Random, tier: str) -> dict:
         for name, c in frame["cols"]:
             if c["kind"] == "cat":
                 c["categories"] = sorted({v for v in c["values"] if v is not None}) or c["categories"][:1]
-    return {"frame": frame, "formula": f, "efr": rng.random() < 0.7, "arrow": arrow, "structured": structured,
+    caller = sorted(rng.sample(range(n), rng.randint(1, min(3, n)))) if rng.random() < 0.3 and n >= 6 and not used_t and not arrow else None  # (arrow: levels living only in dropped rows vanish, see above)
+    return {"frame": frame, "formula": f, "efr": rng.random() < 0.7, "arrow": arrow, "structured": structured, "caller": caller,
             "sig": [sorted((sorted(factors[k]["kind"] for k in t["factors"]), bool(t["scale"])) for t in terms), used_t, nullpat]}
 
 
@@ -99,14 +100,18 @@ def judge(case) -> Outcome:
     from formulaic.materializers import PandasMaterializer
 
     out = Outcome()
-    out.sig = (repr(case["sig"]), case["efr"], case["arrow"], case["structured"])
+    out.sig = (repr(case["sig"]), case["efr"], case["arrow"], case["structured"], case.get("caller") is not None)
     df = make_frame(case["frame"])
     f = case["formula"]
     kw = {"ensure_full_rank": case["efr"]}
-    tag = f"{f!r} efr={case['efr']}"
+    tag = f"{f!r} efr={case['efr']} caller={case.get('caller')}"
+
+    def dk():  # the caller's own drop set (a fresh one per call): an option like any other, on every entry point
+        return {"drop_rows": set(case["caller"])} if case.get("caller") else {}
+
     try:
         with quiet():
-            ref = model_matrix(f, df, output="numpy", context={}, **kw)
+            ref = model_matrix(f, df, output="numpy", context={}, **kw, **dk())
     except Exception as e:  # noqa: BLE001
         msg = str(e)
         if "ValueError" in msg and ("df" in msg or "knots" in msg or "bounds" in msg):
@@ -117,23 +122,30 @@ def judge(case) -> Outcome:
     refs = [(dense(p), colnames(p)) for p in flat(ref)]
     paths = []
     for output in ("pandas", "numpy", "sparse"):
-        paths.append((f"pandas/model_matrix/{output}", lambda o=output: model_matrix(f, df, output=o, context={}, **kw)))
-        paths.append((f"pandas/Formula/{output}", lambda o=output: Formula(f).get_model_matrix(df, output=o, context={}, **kw)))
-        paths.append((f"pandas/ModelSpec/{output}", lambda o=output: ModelSpec.from_spec(Formula(f), output=o, **kw).get_model_matrix(df, context={})))
-        paths.append((f"pandas/materializer/{output}", lambda o=output: PandasMaterializer(df, context={}).get_model_matrix(f, output=o, **kw)))
+        paths.append((f"pandas/model_matrix/{output}", lambda o=output: model_matrix(f, df, output=o, context={}, **kw, **dk())))
+        paths.append((f"pandas/Formula/{output}", lambda o=output: Formula(f).get_model_matrix(df, output=o, context={}, **kw, **dk())))
+        paths.append((f"pandas/ModelSpec/{output}", lambda o=output: ModelSpec.from_spec(Formula(f), output=o, **kw).get_model_matrix(df, context={}, **dk())))
+        paths.append((f"pandas/materializer/{output}", lambda o=output: PandasMaterializer(df, context={}).get_model_matrix(f, output=o, **kw, **dk())))
+
+        def reused(o=output):  # one materializer object serving a second, different request
+            mat = PandasMaterializer(df, context={})
+            mat.get_model_matrix(f, output={"pandas": "sparse", "numpy": "pandas", "sparse": "numpy"}[o], **kw)
+            return mat.get_model_matrix(f, output=o, **kw, **dk())
+
+        paths.append((f"pandas/materializer_reused/{output}", reused))
     # reuse of the reference's (possibly structured) spec, with and without option overrides
     rspec = ref.model_spec
-    paths.append(("pandas/spec_reuse/numpy", lambda: rspec.get_model_matrix(df)))
+    paths.append(("pandas/spec_reuse/numpy", lambda: rspec.get_model_matrix(df, **dk())))
     for output in ("pandas", "numpy", "sparse"):
-        paths.append((f"pandas/spec_reuse_override/{output}", lambda o=output: rspec.get_model_matrix(df, output=o)))
-        paths.append((f"pandas/model_matrix(spec)/{output}", lambda o=output: model_matrix(rspec, df, output=o)))
+        paths.append((f"pandas/spec_reuse_override/{output}", lambda o=output: rspec.get_model_matrix(df, output=o, **dk())))
+        paths.append((f"pandas/model_matrix(spec)/{output}", lambda o=output: model_matrix(rspec, df, output=o, **dk())))
     for output in ("pandas", "numpy", "sparse", "narwhals"):
-        paths.append((f"narwhals(pandas)/model_matrix/{output}", lambda o=output: model_matrix(f, df, output=o, materializer="narwhals", context={}, **kw)))
+        paths.append((f"narwhals(pandas)/model_matrix/{output}", lambda o=output: model_matrix(f, df, output=o, materializer="narwhals", context={}, **kw, **dk())))
     if case["arrow"]:
         table = pa.Table.from_pandas(df, preserve_index=False)
         for output in ("pandas", "numpy", "sparse", "narwhals"):
-            paths.append((f"narwhals(arrow)/model_matrix/{output}", lambda o=output: model_matrix(f, table, output=o, context={}, **kw)))
-        paths.append(("narwhals(arrow)/Formula/numpy", lambda: Formula(f).get_model_matrix(table, output="numpy", context={}, **kw)))
+            paths.append((f"narwhals(arrow)/model_matrix/{output}", lambda o=output: model_matrix(f, table, output=o, context={}, **kw, **dk())))
+        paths.append(("narwhals(arrow)/Formula/numpy", lambda: Formula(f).get_model_matrix(table, output="numpy", context={}, **kw, **dk())))
     for name, fn in paths:
         try:
             with quiet():
